@@ -24,7 +24,8 @@ def atom_of(t):
         key = t[2] or ""
         nm = key.rsplit("::", 1)[-1]
         if nm in PURE_PTR_FUNCS or nm in ("len",):
-            return ("pure", nm, tuple(atom_of(strip_ref(a)) for a in t[3]))
+            # the address of a slice's first element is the same whichever accessor produced it
+            return ("pure", "as_ptr" if nm == "as_mut_ptr" else nm, tuple(atom_of(strip_ref(a)) for a in t[3]))
     if isinstance(t, tuple) and t and t[0] == "len":
         return ("pure", "len", (atom_of(strip_ref(t[1])),))
     return t
